@@ -443,7 +443,16 @@ impl TypeChecker {
             self.unify(*span, ctx, var_ty, ty)?;
             // TODO(ed): Make sure the option is void or none - you cannot return otherwise.
             // But this might be caught somewhere else?
+            // Inside its own body a function has one type - also for the functions defined in
+            // there that call it.
+            let is_function = matches!(value, E::Function { .. });
+            if is_function {
+                self.monomorphic.push(*var);
+            }
             let (value_ret, value_ty) = self.expression(value, ctx)?;
+            if is_function {
+                self.monomorphic.pop();
+            }
             self.unify(*span, ctx, var_ty, value_ty)?;
             // Only what is written as a function - or names one - can be used at several types.
             let names_a_function = match value {
@@ -1165,8 +1174,9 @@ impl TypeChecker {
                     blob_args.clone(),
                 ));
 
-                // Inside the fields `self` is the instance we're building.
+                // Inside the fields `self` is the instance we're building - with one type.
                 self.unify(*span, ctx, self.variables[*self_var].ty, given_blob)?;
+                self.monomorphic.push(*self_var);
 
                 // Unify the fields with their real types
                 let mut ret = None;
